@@ -7,6 +7,7 @@
 //   race prog --kind lru --types 0 --cap 3 --threads 3 --ops 30 --seed 7
 //   race list --kind lru                      (prints the method names the kind supports)
 #include "exec.hpp"
+#include "values.hpp"
 #include "vt.hpp"
 
 #include <atomic>
